@@ -11,6 +11,10 @@ from . import orders
 from .loader import shape_error
 
 
+_BUILTIN_NAMES = {'float': float, 'int': int, 'bool': bool, 'str': str, 'list': list, 'tuple': tuple, 'dict': dict, 'set': set,
+                  'None': None, 'True': True, 'False': False}
+
+
 def funcs(ctx, module=None, stubs=None):
     fn = {}
 
@@ -27,6 +31,8 @@ def funcs(ctx, module=None, stubs=None):
     consts = {}
 
     def name_of(nm):
+        if stubs and nm in stubs:
+            return stubs[nm]
         fi = lookup(nm)
         if fi is not None:
             return orders.make_func(fi.node, fn)
@@ -43,6 +49,8 @@ def funcs(ctx, module=None, stubs=None):
                     break
         if consts[nm] is not None:
             return consts[nm].value
+        if nm in _BUILTIN_NAMES:
+            return _BUILTIN_NAMES[nm]
         raise orders.Unsupported('free name %s' % nm)
 
     def resolve(call, fname):
